@@ -15,6 +15,7 @@ import RSVerif.Proofs.FlatSpec
 import RSVerif.Proofs.FlatEngineSpec
 import RSVerif.Proofs.SrcEngineSpec
 import RSVerif.Proofs.SrcKernelSpec
+import RSVerif.Proofs.SrcShardsSpec
 
 namespace RS
 open ShardAlg
@@ -243,5 +244,40 @@ theorem source_kernels_are_field_butterflies (m : Nat) (x y : Block) (i : Fin 32
     · exact Or.inl (h.trans (ssse3_ifftb f x y))
     · exact Or.inr (Or.inl (h.trans (avx2_ifftb f x y)))
     · exact Or.inr (Or.inr (Or.inl (h.trans (neon_ifftb f x y))))
+
+open RS.SrcS RS.RustS in
+/-- the INDEX ARITHMETIC of the flat working memory AS TRANSLATED FROM TODAY'S SOURCE (`Gen/SrcShards.lean`,
+    regenerated by `/verif/translate/rs2lean_shards.py` on every run: `dist2_mut`, `dist4_mut`, `flat2_mut`,
+    `copy_within`, `zero`, `split_at_mut`, `new`, the four `Index` / `IndexMut` impls — slices as (offset, length)
+    views, Rust's slice / split panics as `none`, checked `usize`): for every memory of fewer than 2^64 blocks and
+    all arguments, each accessor panics exactly where the flat model does and hands out exactly the block ranges
+    the model reads and writes — the ranges `flat_butterflies_refine` / `flat_transforms_refine` are proved on. -/
+theorem source_shards_are_flat_model (f : Flat) (hs : f.data.size < 18446744073709551616) (a b c : Nat) :
+    ((ShardsRefMut_dist2_mut (hdr f) a b).map (fun v => (v.1.get f.data, v.2.get f.data)) = f.dist2 a b ∧
+      ∀ x y, ShardsRefMut_dist2_mut (hdr f) a b = some (x, y) →
+        x = ⟨a * f.len64, f.len64⟩ ∧ y = ⟨a * f.len64 + b * f.len64, f.len64⟩) ∧
+    ((ShardsRefMut_dist4_mut (hdr f) a b).map
+        (fun v => (v.1.get f.data, v.2.1.get f.data, v.2.2.1.get f.data, v.2.2.2.get f.data)) = f.dist4 a b) ∧
+    ((ShardsRefMut_flat2_mut (hdr f) a b c).map (fun v => (v.1.get f.data, v.2.get f.data)) = f.flat2 a b c ∧
+      ∀ x y, ShardsRefMut_flat2_mut (hdr f) a b c = some (x, y) →
+        x = ⟨a * f.len64, c * f.len64⟩ ∧ y = ⟨b * f.len64, c * f.len64⟩) ∧
+    ((ShardsRefMut_copy_within (hdr f) a b c).map
+        (fun p => ({ f with data := moveRange f.data p.1.off p.2 p.1.len } : Flat)) = f.copyWithin a b c) ∧
+    ((ShardsRefMut_zero (hdr f) ⟨.included a, .excluded b⟩).map
+        (fun v => ({ f with data := fillRange f.data v.off (v.off + v.len) } : Flat)) = f.zero a b) ∧
+    ((ShardsRefMut_zero (hdr f) ⟨.included a, .unbounded⟩).map
+        (fun v => ({ f with data := fillRange f.data v.off (v.off + v.len) } : Flat)) = f.zeroFrom a) ∧
+    ((ShardsRefMut_split_at_mut (hdr f) a).map
+        (fun p => ((⟨p.1.shard_count, p.1.shard_len_64, p.1.data.get f.data⟩ : Flat),
+                   (⟨p.2.shard_count, p.2.shard_len_64, p.2.data.get f.data⟩ : Flat))) = f.splitAt a) ∧
+    (a + 1 < 18446744073709551616 →
+      (ShardsRefMut_index (hdr f) a).map (fun v => v.get f.data) = f.shard a ∧
+      ShardsRefMut_index_mut (hdr f) a = ShardsRefMut_index (hdr f) a ∧
+      Shards_index (hdr f) a = ShardsRefMut_index (hdr f) a ∧
+      Shards_index_mut (hdr f) a = ShardsRefMut_index (hdr f) a) :=
+  ⟨src_dist2_mut f hs a b, (src_dist4_mut f hs a b).1, src_flat2_mut f hs a b c, src_copy_within f hs a b c,
+   (src_zero f hs a b).1, (src_zero f hs a b).2, (src_split_at_mut f hs a).1,
+   fun hi => ⟨(src_index f hs a hi).1, (src_index f hs a hi).2.1, (src_index f hs a hi).2.2.1,
+     (src_index f hs a hi).2.2.2.1⟩⟩
 
 end RS
